@@ -120,6 +120,34 @@ def classify(blob_bytes):
         if "blob_hash" in b:
             scalar_ok = scalar_ok and isinstance(b["blob_hash"], str)
     if not scalar_ok:
+        # a length / blob_num written as a number with a fractional part (16.5) equals no integer, so no commitment over
+        # integers can cover it: refused under every reading, unless the stated hash was recomputed over that very text
+        others_ok = all(isinstance(doc[k], str) for k in ("stream_name", "key", "suggested_file_name", "stream_hash"))
+        fractional = False
+        for b in blobs:
+            others_ok = others_ok and isinstance(b["iv"], str) and ("blob_hash" not in b or isinstance(b["blob_hash"], str))
+            for f in ("blob_num", "length"):
+                v = b[f]
+                if _is_int(v):
+                    continue
+                if isinstance(v, float) and v == v and v not in (float("inf"), float("-inf")) and v != int(v):
+                    fractional = True
+                else:
+                    others_ok = False
+        if others_ok and fractional:
+            try:
+                inner = hashlib.sha384()
+                for b in blobs:
+                    parts = ([b["blob_hash"]] if b["length"] != 0 and "blob_hash" in b else []) + \
+                        [str(b["blob_num"]), b["iv"], str(b["length"])]
+                    inner.update(sha384("".join(parts).encode("ascii")))
+                outer = hashlib.sha384()
+                outer.update((doc["stream_name"] + doc["key"] + doc["suggested_file_name"]).encode("ascii"))
+                outer.update(inner.digest())
+                if outer.hexdigest() != doc["stream_hash"]:
+                    return "hash_mismatch", doc
+            except (UnicodeEncodeError, TypeError):
+                pass
         return "wrong_scalar_type", doc
     for b in blobs:
         if b["length"] != 0 and "blob_hash" not in b:
